@@ -75,6 +75,24 @@ func (x *Exec) bigFromTC(w []*Term) TupleV {
 }
 
 func registerMoreIntrinsics() {
+	intrinsics["k8s.io/apimachinery/pkg/util/wait.Jitter"] = func(x *Exec, st *State, fr *Frame, fn *ssa.Function, a []Value) (Value, int) {
+		return ret1(a[0]) // any duration in [d, d+f*d): the lower end is taken; durations only feed timers outside the checks
+	}
+	intrinsics["math/rand.Intn"] = func(x *Exec, st *State, fr *Frame, fn *ssa.Function, a []Value) (Value, int) {
+		n := a[0].(*Term)
+		v := x.newNondet(st, "rand.Intn", 64, "int64")
+		x.assume(st, x.tc.Cmp("bvsle", x.tc.Const(64, 0), v))
+		x.assume(st, x.tc.Cmp("bvslt", v, n))
+		return ret1(v)
+	}
+	intrinsics["math/rand.Int63"] = func(x *Exec, st *State, fr *Frame, fn *ssa.Function, a []Value) (Value, int) {
+		v := x.newNondet(st, "rand.Int63", 64, "int64")
+		x.assume(st, x.tc.Cmp("bvsle", x.tc.Const(64, 0), v))
+		return ret1(v)
+	}
+	intrinsics["math/rand.Float64"] = func(x *Exec, st *State, fr *Frame, fn *ssa.Function, a []Value) (Value, int) {
+		return ret1(x.tc.ConstF(0.5))
+	}
 	intrinsics["os.Getenv"] = func(x *Exec, st *State, fr *Frame, fn *ssa.Function, a []Value) (Value, int) {
 		k := x.concStr(a[0], "os.Getenv key")
 		if v, ok := st.ghost["$env:"+k]; ok {
